@@ -1,7 +1,8 @@
 import CvxVerif.Gen.LapackDriver
+import CvxVerif.Gen.BaseDriver
 import CvxVerif.Gen.LapackFoot
 import CvxVerif.Model.Proto
-open CvxVerif CvxVerif.CWrap CvxVerif.Gen.Lapack CvxVerif.Proto
+open CvxVerif CvxVerif.CWrap CvxVerif.Gen.Lapack CvxVerif.Gen.Base CvxVerif.Proto
 
 def parseKv (kvs : List String) : (String → Int) :=
   let tbl : List (String × Int) := kvs.filterMap fun kv =>
@@ -22,6 +23,14 @@ def stepLine (u : Unit) (line : String) : Unit × String :=
     | some (.reject c) => (u, "reject " ++ c)
     | some .none => (u, "none")
     | some (.call vals) => (u, "call " ++ " ".intercalate ((callNamesL name).zip vals |>.map fun p => s!"{p.1}={p.2}"))
+  | "base" :: name :: kvs =>
+    let kv := parseKv kvs
+    let kb := fun k => kv k != 0
+    match runBase name kv kb with
+    | none => (u, "no-routine")
+    | some (.reject c) => (u, "reject " ++ c)
+    | some .none => (u, "none")
+    | some (.call vals) => (u, "call " ++ " ".intercalate ((callNamesB name).zip vals |>.map fun p => s!"{p.1}={p.2}"))
   | "foot" :: name :: kvs =>
     let kv := parseKv kvs
     let kb := fun k => kv k != 0
